@@ -132,6 +132,8 @@ theorem numDigits_ackOfQos (qos : Option Int) : numDigits (ackOfQos qos) ≤ PyT
       · simp [h, numDigits_zero]
   rw [this]; decide
 
+theorem decode_nil : decode [] = none := by decide
+
 /-- decoding does not need the trailing newline -/
 theorem decode_append_nl (s : Str) : decode (s ++ ['\n']) = decode s := by
   unfold decode rstrip
